@@ -432,6 +432,27 @@ def cross_refs(s: G.Schema) -> List[Any]:
             and getattr(h, a).d.home is not s]
 
 
+def mentioned_nested(s: G.Schema) -> List[Any]:
+    """definitions nested in a message of ANOTHER file whose name the output for `s` has to mention: referenced directly, or
+    reached from a field / alias of `s` through aliases and arrays (the renderers descend through an alias to its element
+    type; they do not descend into message fields)"""
+    out: List[Any] = []
+
+    def walk(t: Any, depth: int = 0) -> None:
+        if isinstance(t, G.TArray):
+            walk(t.elem, depth)
+        elif isinstance(t, G.TRef) and depth < 12:
+            d = t.d
+            if getattr(d, "home", None) is not s and d.parent is not None:
+                out.append(d)
+            if isinstance(d, G.AliasDef):
+                walk(d.type, depth + 1)
+
+    for (h, a) in ref_slots(s):
+        walk(getattr(h, a))
+    return out
+
+
 def visible_name(s: G.Schema, imp: G.Schema) -> str:
     for (i, as_name) in s.imports:
         if i is imp:
@@ -1340,8 +1361,7 @@ def route(p: Prog, f: Dict[str, Any]) -> Optional[str]:
         s = schema_by_fname(p, f.get("origin_src") or f.get("src"))
         if s is None:
             return None
-        nested = [d for d in cross_refs(s) if d.parent is not None]
-        if any(norm(f.get("name")) == flat(d) for d in nested):
+        if any(norm(f.get("name")) == flat(d) for d in mentioned_nested(s)):
             return "KF-nested-import"
         return None
     if kind == "go-unused-import":
